@@ -21,7 +21,7 @@ RULE = ('roundtrip units: cookie names from the token alphabet x plain values (t
         'position x {16 substitution symbols, deletion, truncation} in quoted and unquoted transport form, plus swaps / length changes / '
         'other secret / other name. Non-trivial = a signed cookie, or a plain value needing quoting; distinct = distinct Cookie header.')
 PYOPT = {'quick': 1, 'thorough': 1}     # one unit of every kind is also served by an interpreter started with -O (assert statements compiled out)
-REQUIRED = ['units_run_under_python_-O', 'same_object_signed_in_an_earlier_state', 'cookie_on_a_raised_response_over_one_of_the_application_response', 'tampered_header_put_on_a_request_that_had_read_the_genuine_one', 'cookie_on_a_response_without_body(204/304)', 'set_after_earlier_cookie_operations', 'emitted_by_a_copied_response', 'plain_roundtrips', 'signed_roundtrips', 'quoted_values', 'tamper_reads', 'tamper_substitution', 'tamper_deletion',
+REQUIRED = ['units_run_under_python_-O', 'signed_cookies_of_kilobytes', 'same_object_signed_in_an_earlier_state', 'cookie_on_a_raised_response_over_one_of_the_application_response', 'tampered_header_put_on_a_request_that_had_read_the_genuine_one', 'cookie_on_a_response_without_body(204/304)', 'set_after_earlier_cookie_operations', 'emitted_by_a_copied_response', 'plain_roundtrips', 'signed_roundtrips', 'quoted_values', 'tamper_reads', 'tamper_substitution', 'tamper_deletion',
             'tamper_truncation', 'tamper_swap', 'tamper_other_secret', 'tamper_other_name', 'unpickler_calls_observed', 'read_as_absent',
             'via_wsgi', 'unquoted_form', 'among_other_cookies']
 ASSUMPTIONS = ['cookie names are RFC 6265 tokens accepted by http.cookies; values are non-empty and at most 4096 characters',
@@ -40,7 +40,7 @@ OBJECTS = [1, 'text', None, True, 3.5, ('a', 1), ['l', ['nested', {'k': (1, 2)}]
 SENT = object()
 
 
-PRIORS = ['none', 'none', 'set_before', 'deleted_before', 'set_then_deleted', 'other_name_before', 'failed_reset_after']
+PRIORS = ['none', 'none', 'set_before', 'deleted_before', 'set_then_deleted', 'other_name_before', 'failed_reset_after', 'set_and_looked_at_before', 'deleted_and_looked_at_before']
 
 
 def apply_prior(resp, prior, name):
@@ -49,6 +49,16 @@ def apply_prior(resp, prior, name):
         resp.set_cookie(name, 'earlier value; with "separators"', max_age=5)
     if prior in ('deleted_before', 'set_then_deleted'):
         resp.delete_cookie(name)
+    if prior == 'set_and_looked_at_before':
+        # something (a logging hook, a debugger, repr) built the header list while the earlier value was set
+        resp.set_cookie(name, 'earlier value', max_age=5)
+        list(resp.headerlist)
+        repr(resp)
+    if prior == 'deleted_and_looked_at_before':
+        resp.set_cookie(name, 'earlier value')
+        list(resp.headerlist)
+        resp.delete_cookie(name)
+        list(resp.headerlist)
     if prior == 'other_name_before':
         resp.set_cookie('zz' + name if name[:1].isalnum() else 'zzother', 'other')
 
@@ -336,6 +346,11 @@ def tamper_unit(ctx, unit):
         value = rng.choice(OBJECTS[:9])
         if rng.random() < 0.5:
             value = {'uid': rng.getrandbits(24), 'v': value}
+        if unit.get('long'):
+            # a session object of a few kB (the limit is 4096 characters for the whole signed text): every position is still covered
+            size = unit['long'][ci % len(unit['long'])]
+            value = {'uid': rng.getrandbits(24), 'notes': ''.join(rng.choice('abcdefghij klmnopqrstuvwxyz0123456789') for _ in range(size)), 'tail': [1, 2, 3]}
+            ctx.count('signed_cookies_of_kilobytes')
         sc = mon.sign(name, value, secret)
         pair = cookie_pair(sc)
         signed_string = stdlib_value(pair, name)
@@ -355,7 +370,7 @@ def tamper_unit(ctx, unit):
                 ctx.count('among_other_cookies')
             start = len(name) + 1
             for pos in range(start, len(base)):
-                for c in SUBST:
+                for c in (SUBST if not unit.get('long') else [SUBST[pos % len(SUBST)], 'A' if base[pos] != 'A' else 'B']):
                     if base[pos] == c:
                         continue
                     t = base[:pos] + c + base[pos + 1:]
@@ -430,9 +445,11 @@ def tamper_unit(ctx, unit):
 
 def plan(tier, seed):
     if tier == 'quick':
-        return [{'kind': 'roundtrip', 'n': 800, 'sub': i} for i in range(3)] + [{'kind': 'tamper', 'cookies': 2, 'sub': i} for i in range(5)]
+        return ([{'kind': 'roundtrip', 'n': 800, 'sub': i} for i in range(3)] + [{'kind': 'tamper', 'cookies': 2, 'sub': i} for i in range(5)]
+                + [{'kind': 'tamper', 'cookies': 1, 'long': [L], 'sub': i} for i, L in enumerate((700, 1480, 1600, 2200, 2900))])
     return ([{'kind': 'roundtrip', 'n': 6000, 'sub': i} for i in range(8)] + [{'kind': 'tamper', 'cookies': 10, 'sub': i} for i in range(40)]
-            + [{'kind': 'tamper', 'cookies': 2, 'alphabet': 'full', 'sub': i} for i in range(24)])
+            + [{'kind': 'tamper', 'cookies': 2, 'alphabet': 'full', 'sub': i} for i in range(24)]
+            + [{'kind': 'tamper', 'cookies': 4, 'long': [300 + 97 * i + 7 * j for j in range(4)], 'sub': i} for i in range(27)])
 
 
 def run_unit(ctx, unit):
